@@ -214,6 +214,9 @@ fn refuse(requested: usize, held: isize) -> ! {
     // the meter is disarmed (ACTIVE=false) so the allocations below are not charged
     let idx = CASE_IDX.load(Ordering::Relaxed);
     let site = if RESOLVE.load(Ordering::Relaxed) {
+        // symbolising the whole binary can take many CPU seconds on a loaded machine: the case is over,
+        // stop the CPU-time monitor from counting it
+        CASE_IDX.store(u64::MAX, Ordering::Release);
         let bt = std::backtrace::Backtrace::force_capture();
         let txt = bt.to_string();
         if std::env::var_os("C08_DUMP_BT").is_some() {
